@@ -1,4 +1,4 @@
-import FancyModel.Proofs.C19b
+import FancyModel.Proofs.C15c
 /-!
 # C14 (parser part) — `RegexBuilder::case_insensitive(true)` on `P` versus `(?i)P`
 
@@ -12,7 +12,17 @@ literals, `(?i){2}` is `TargetNotRepeatable`; reproduced on the real crate),
 `C14_parse_flag_false_backref` (`P = \\1`: the `group < re.len() / 2` bound moves with the four
 prefix bytes), `C14_parse_flag_not_together`.
 
-What holds, for every pattern that begins with `(?i)`:
+**The corrected statement is proved**: `C14_parse_flag_partial` (readable forms
+`C14_parse_flag_ok`, `C14_parse_flag_err`, `C14_parse_flag_conv`): if `P` does not begin with a
+`(?#…)` comment nor with something `parse_piece` reads as a quantifier, the run on `P` with the
+flag seeded and the run on `"(?i)" ++ P` give the same `ExprTree` / the same error four bytes
+later / `NamedBackrefOnly` in both — up to the two length-dependent back-reference errors.  It rests
+on the **shift invariance of the whole parser model** (`descSim`: all nine functions of the descent
+and every leaf scanner, run on `re1` from `ix` against `pre ++ re1` from `ix + |pre|`, any fuels
+`f` / `f + c`), which is the invariant "a run at offset `ix` of `P` against a run at offset
+`ix + 4` of `(?i)P`".
+
+What holds for every pattern that begins with `(?i)` (no side condition):
 * `parseAtom_i` / `parsePiece_i`: the flag group is an `Empty` atom of four bytes that sets the `i`
   flag and nothing else, and what follows it is read as *its quantifier* if it looks like one;
 * `C14_flag_group_seeds`: otherwise the loop of `parse_branch` continues after the group in the
@@ -216,4 +226,1407 @@ theorem C14_flag_group_seeds (isAlnum : Char → Bool) {re : Bytes} (f : Nat) {i
   rw [branchLoop]
   simp only [hlt, ↓reduceIte, hp', Res.ok_bind, hne, Bool.false_eq_true, Expr.isEmpty]
   cases branchLoop isAlnum (f + 4) re { flags := { casei := true } } ix' 0 <;> rfl
+/-! ## shift invariance of the parser: a run on `re1` from `ix` against a run on
+`re2 = pre ++ re1` from `ix + |pre|` -/
+
+/-- `re2` is `re1` with `k` bytes in front, and `k` is a character boundary of `re2` -/
+structure Shift (re1 re2 : Bytes) (k : Nat) : Prop where
+  list : ∃ pre : List Nat, pre.length = k ∧ re2.toList = pre ++ re1.toList
+  bnd0 : isBoundary re2 k = true
+
+namespace Shift
+variable {re1 re2 : Bytes} {k : Nat}
+
+theorem size (S : Shift re1 re2 k) : re2.size = re1.size + k := by
+  obtain ⟨pre, hk, h⟩ := S.list
+  have := size_of_split h
+  simp only [Array.length_toList] at this
+  omega
+
+theorem get (S : Shift re1 re2 k) (i : Nat) : re2[i + k]? = re1[i]? := by
+  obtain ⟨pre, hk, h⟩ := S.list
+  rw [← Array.getElem?_toList, h, ← hk, List.getElem?_append_right (by omega)]
+  simp
+
+theorem drop (S : Shift re1 re2 k) (i : Nat) : re2.toList.drop (i + k) = re1.toList.drop i := by
+  obtain ⟨pre, hk, h⟩ := S.list
+  rw [h, ← hk, Nat.add_comm, ← List.drop_drop]
+  simp
+
+theorem extract (S : Shift re1 re2 k) (a b : Nat) :
+    (re2.extract (a + k) (b + k)).toList = (re1.extract a b).toList := by
+  rw [Array.toList_extract, Array.toList_extract, List.extract_eq_take_drop, List.extract_eq_take_drop,
+    S.drop, show b + k - (a + k) = b - a by omega]
+
+theorem isBoundary (S : Shift re1 re2 k) (i : Nat) : isBoundary re2 (i + k) = isBoundary re1 i := by
+  by_cases h0 : i = 0
+  · subst h0
+    rw [Nat.zero_add, S.bnd0, isBoundary_zero]
+  · unfold Parse.isBoundary
+    rw [S.get, S.size]
+    have e1 : (i + k == 0) = false := by simpa using (by omega : i + k ≠ 0)
+    have e2 : (i == 0) = false := by simpa using h0
+    have e3 : (i + k == re1.size + k) = (i == re1.size) := by
+      by_cases h : i = re1.size
+      · subst h; simp
+      · have h' : i + k ≠ re1.size + k := by omega
+        rw [beq_false_of_ne h, beq_false_of_ne h']
+    rw [e1, e2, e3]
+
+theorem startsWithAt (S : Shift re1 re2 k) : ∀ (l : List Nat) (i : Nat),
+    startsWithAt re2 (i + k) l = startsWithAt re1 i l := by
+  intro l
+  induction l with
+  | nil => intro i; rfl
+  | cons c cs ih =>
+    intro i
+    simp only [Parse.startsWithAt, S.get]
+    rw [show i + k + 1 = i + 1 + k by omega, ih]
+
+theorem lt_size (S : Shift re1 re2 k) (i : Nat) : (i + k < re2.size) = (i < re1.size) := by
+  rw [S.size]; simp
+
+theorem eq_size (S : Shift re1 re2 k) (i : Nat) : (i + k == re2.size) = (i == re1.size) := by
+  rw [S.size]
+  by_cases h : i = re1.size
+  · subst h; simp
+  · have h' : i + k ≠ re1.size + k := by omega
+    rw [beq_false_of_ne h, beq_false_of_ne h']
+
+end Shift
+
+/-! ### the simulation relation -/
+
+/-- the two errors whose occurrence depends on the length of the pattern (`group < re.len() / 2`) -/
+def BadErr : PErr → Prop
+  | .invalidBackref => True
+  | .invalidGroupNameBackref _ => True
+  | _ => False
+
+/-- run 2 does what run 1 does, `k` bytes to the right: same value (shifted by `sh`), same error
+    `k` bytes later — unless run 1 stops at a length-dependent back-reference error; nothing is
+    claimed if run 1 panics or runs out of fuel (it never does, C06) -/
+def SimB {α β : Type} (bad : PErr → Prop) (k : Nat) (sh : α → β) (r1 : Res α) (r2 : Res β) : Prop :=
+  match r1 with
+  | .ok a => r2 = .ok (sh a)
+  | .err e p => bad e ∨ r2 = .err e (p + k)
+  | .cerr => r2 = .cerr
+  | .panic _ => True
+  | .outOfFuel => True
+
+/-- the simulation up to the length-dependent back-reference errors -/
+abbrev Sim {α β : Type} (k : Nat) (sh : α → β) (r1 : Res α) (r2 : Res β) : Prop := SimB BadErr k sh r1 r2
+
+theorem SimB.bind {α β α' β' : Type} {bad : PErr → Prop} {k : Nat} {sh : α → α'} {sh' : β → β'} {x1 : Res α} {x2 : Res α'}
+    {f1 : α → Res β} {f2 : α' → Res β'} (hx : SimB bad k sh x1 x2)
+    (hf : ∀ a, SimB bad k sh' (f1 a) (f2 (sh a))) : SimB bad k sh' (x1 >>= f1) (x2 >>= f2) := by
+  cases x1 with
+  | ok a => simp only [SimB] at hx; subst hx; exact hf a
+  | err e p =>
+    simp only [SimB] at hx
+    rcases hx with h | h
+    · exact Or.inl h
+    · subst h; exact Or.inr rfl
+  | cerr => simp only [SimB] at hx; subst hx; rfl
+  | panic s => trivial
+  | outOfFuel => trivial
+
+theorem SimB.ite {α β : Type} {bad : PErr → Prop} {k : Nat} {sh : α → β} {c1 c2 : Prop} [Decidable c1] [Decidable c2]
+    {t1 e1 : Res α} {t2 e2 : Res β} (hc : c2 ↔ c1) (ht : c1 → SimB bad k sh t1 t2)
+    (he : ¬ c1 → SimB bad k sh e1 e2) : SimB bad k sh (if c1 then t1 else e1) (if c2 then t2 else e2) := by
+  by_cases h : c1
+  · rw [if_pos h, if_pos (hc.mpr h)]; exact ht h
+  · rw [if_neg h, if_neg (fun h2 => h (hc.mp h2))]; exact he h
+
+theorem SimB.ok {α β : Type} {bad : PErr → Prop} {k : Nat} {sh : α → β} (a : α) : SimB bad k sh (.ok a) (.ok (sh a)) := rfl
+theorem SimB.ok' {α β : Type} {bad : PErr → Prop} {k : Nat} {sh : α → β} {a : α} {b : β} (h : b = sh a) :
+    SimB bad k sh (.ok a) (.ok b) := by subst h; rfl
+theorem SimB.err' {α β : Type} {bad : PErr → Prop} {k : Nat} {sh : α → β} {e : PErr} {p q : Nat} (h : q = p + k) :
+    SimB bad k sh (.err e p : Res α) (.err e q : Res β) := by subst h; exact Or.inr rfl
+theorem SimB.pure {α β : Type} {bad : PErr → Prop} {k : Nat} {sh : α → β} (a : α) :
+    SimB bad k sh (pure a : Res α) (pure (sh a) : Res β) := rfl
+theorem SimB.err {α β : Type} {bad : PErr → Prop} {k : Nat} {sh : α → β} (e : PErr) (p : Nat) :
+    SimB bad k sh (.err e p : Res α) (.err e (p + k) : Res β) := Or.inr rfl
+theorem SimB.panic {α β : Type} {bad : PErr → Prop} {k : Nat} {sh : α → β} (s : String) (r2 : Res β) :
+    SimB bad k sh (.panic s : Res α) r2 := trivial
+
+theorem SimB.mono {α β : Type} {bad : PErr → Prop} {k : Nat} {sh sh' : α → β} {r1 : Res α} {r2 : Res β}
+    (h : SimB bad k sh r1 r2) (hs : ∀ a, sh a = sh' a) : SimB bad k sh' r1 r2 := by
+  have : sh = sh' := funext hs
+  subst this; exact h
+
+/-! ### leaves -/
+section leaves
+variable {re1 re2 : Bytes} {k : Nat} {bad : PErr → Prop}
+
+theorem sliceOk_shift (S : Shift re1 re2 k) (a b : Nat) : sliceOk re2 (a + k) (b + k) = sliceOk re1 a b := by
+  unfold sliceOk
+  rw [S.isBoundary, S.isBoundary, S.size]
+  have e1 : decide (a + k ≤ b + k) = decide (a ≤ b) := by simp
+  have e2 : decide (b + k ≤ re1.size + k) = decide (b ≤ re1.size) := by simp
+  rw [e1, e2]
+
+theorem slice_shift (S : Shift re1 re2 k) (a b : Nat) (site : String) :
+    slice re2 (a + k) (b + k) site = slice re1 a b site := by
+  unfold slice
+  rw [sliceOk_shift S, S.extract]
+
+theorem sliceFrom_shift (S : Shift re1 re2 k) (a : Nat) (site : String) :
+    sliceFrom re2 (a + k) site = sliceFrom re1 a site := by
+  unfold sliceFrom sliceFromOk
+  rw [S.isBoundary]
+
+theorem byteAt_shift (S : Shift re1 re2 k) (i : Nat) (site : String) :
+    byteAt re2 (i + k) site = byteAt re1 i site := by
+  unfold byteAt
+  rw [S.get]
+
+/-- index shift on an optional `(index, value)` -/
+def shOpt2 (k : Nat) : Option (Nat × Nat) → Option (Nat × Nat) := Option.map fun p => (p.1 + k, p.2)
+
+theorem sim_parseDecimal (S : Shift re1 re2 k) (ix : Nat) :
+    SimB bad k (shOpt2 k) (parseDecimal re1 ix) (parseDecimal re2 (ix + k)) := by
+  unfold parseDecimal
+  simp only [S.drop]
+  generalize (re1.toList.drop ix).takeWhile isDigit = ds
+  rw [show ix + k + ds.length = ix + ds.length + k by omega, sliceOk_shift S]
+  split
+  · exact SimB.panic _ _
+  · split
+    · exact SimB.ok _
+    · split
+      · exact SimB.ok _
+      · exact SimB.ok _
+
+/-- the comment loop: same steps; run 2 may have more fuel -/
+theorem sim_skipComment (S : Shift re1 re2 k) : ∀ (f c ix : Nat),
+    SimB bad k (· + k) (skipComment f re1 ix) (skipComment (f + c) re2 (ix + k)) := by
+  intro f
+  induction f with
+  | zero => intro c ix; trivial
+  | succ f ih =>
+    intro c ix
+    rw [show f + 1 + c = (f + c) + 1 by omega, skipComment, skipComment]
+    refine SimB.ite (by rw [S.size]; omega) (fun _ => ?_) (fun _ => ?_)
+    · rw [S.size]; exact SimB.err _ _
+    · rw [S.get]
+      cases re1[ix]? with
+      | none => exact SimB.panic _ _
+      | some b =>
+        simp only
+        refine SimB.ite Iff.rfl (fun _ => SimB.ok' (by omega)) (fun _ => ?_)
+        refine SimB.ite Iff.rfl (fun _ => ?_) (fun _ => ?_)
+        · rw [show ix + k + 2 = ix + 2 + k by omega]; exact ih c (ix + 2)
+        · rw [show ix + k + 1 = ix + 1 + k by omega]; exact ih c (ix + 1)
+
+/-- `optional_whitespace`: same steps; run 2 may have more fuel -/
+theorem sim_optionalWhitespace (S : Shift re1 re2 k) (fl : Flags) : ∀ (f c ix : Nat),
+    SimB bad k (· + k) (optionalWhitespace f re1 fl ix) (optionalWhitespace (f + c) re2 fl (ix + k)) := by
+  intro f
+  induction f with
+  | zero => intro c ix; trivial
+  | succ f ih =>
+    intro c ix
+    rw [show f + 1 + c = (f + c) + 1 by omega, optionalWhitespace, optionalWhitespace]
+    rw [S.eq_size, S.get, S.drop, S.size]
+    split
+    · exact SimB.ok _
+    · cases re1[ix]? with
+      | none => exact SimB.panic _ _
+      | some b =>
+        simp only
+        refine SimB.ite Iff.rfl (fun _ => ?_) (fun _ => ?_)
+        · cases (re1.toList.drop ix).findIdx? (· == 10) with
+          | none => exact SimB.ok _
+          | some x =>
+            simp only
+            rw [show ix + k + x + 1 = ix + x + 1 + k by omega]; exact ih c _
+        refine SimB.ite Iff.rfl (fun _ => ?_) (fun _ => ?_)
+        · rw [show ix + k + 1 = ix + 1 + k by omega]; exact ih c _
+        rw [show Parse.startsWithAt re2 (ix + k) [ch '(', ch '?', ch '#'] =
+          Parse.startsWithAt re1 ix [ch '(', ch '?', ch '#'] from S.startsWithAt _ _]
+        refine SimB.ite Iff.rfl (fun _ => ?_) (fun _ => SimB.ok _)
+        have hsc := sim_skipComment (bad := bad) S (re1.size + 1) k (ix + 3)
+        rw [show ix + 3 + k = ix + k + 3 by omega, show re1.size + 1 + k = re1.size + k + 1 by omega] at hsc
+        generalize skipComment (re1.size + 1) re1 (ix + 3) = x1 at hsc ⊢
+        generalize skipComment (re1.size + k + 1) re2 (ix + k + 3) = x2 at hsc ⊢
+        cases x1 with
+        | ok a => simp only [SimB] at hsc; subst hsc; exact ih c a
+        | err e p =>
+          rcases hsc with h | h
+          · exact Or.inl h
+          · subst h; exact Or.inr rfl
+        | cerr => simp only [SimB] at hsc; subst hsc; rfl
+        | panic s => trivial
+        | outOfFuel => trivial
+
+theorem sim_optWs (S : Shift re1 re2 k) (fl : Flags) (ix : Nat) :
+    SimB bad k (· + k) (optWs re1 fl ix) (optWs re2 fl (ix + k)) := by
+  unfold optWs
+  rw [S.size, show re1.size + k + 2 = re1.size + 2 + k by omega]
+  exact sim_optionalWhitespace S fl _ _ _
+
+theorem Shift.beq_size (S : Shift re1 re2 k) (i : Nat) : (i + k == re2.size) = true ↔ (i == re1.size) = true := by
+  rw [S.eq_size]
+
+theorem sim_byteAt (re : Bytes) (k i : Nat) (site : String) :
+    SimB bad k id (byteAt re i site) (byteAt re i site) := by
+  unfold byteAt
+  cases re[i]? with
+  | none => trivial
+  | some b => rfl
+
+theorem sim_parseRepeat (S : Shift re1 re2 k) (fl : Flags) (ix : Nat) :
+    SimB bad k (fun r => (r.1 + k, r.2)) (parseRepeat re1 fl ix) (parseRepeat re2 fl (ix + k)) := by
+  unfold parseRepeat
+  rw [show ix + k + 1 = ix + 1 + k by omega]
+  refine SimB.bind (sim_optWs S fl _) (fun ix1 => ?_)
+  try dsimp only
+  refine SimB.ite (S.beq_size ix1) (fun _ => SimB.err _ _) (fun _ => ?_)
+  rw [byteAt_shift S]
+  refine SimB.bind (sim_byteAt re1 k ix1 _) (fun b => ?_)
+  try dsimp only [id]
+  refine SimB.bind (sh := fun p : Nat × Nat => (p.1, p.2 + k)) ?_ (fun lo_end => ?_)
+  · refine SimB.ite Iff.rfl (fun _ => SimB.pure _) (fun _ => ?_)
+    refine SimB.bind (sim_parseDecimal S ix1) (fun r => ?_)
+    cases r with
+    | none => exact SimB.err _ _
+    | some p => exact SimB.pure _
+  refine SimB.bind (sim_optWs S fl _) (fun ix2 => ?_)
+  try dsimp only
+  refine SimB.ite (S.beq_size ix2) (fun _ => SimB.err _ _) (fun _ => ?_)
+  rw [byteAt_shift S]
+  refine SimB.bind (sim_byteAt re1 k ix2 _) (fun b2 => ?_)
+  try dsimp only [id]
+  refine SimB.bind (sh := fun p : Nat × Nat => (p.1, p.2 + k)) ?_ (fun hi_end => ?_)
+  · refine SimB.ite Iff.rfl (fun _ => SimB.pure _) (fun _ => ?_)
+    refine SimB.ite Iff.rfl (fun _ => ?_) (fun _ => SimB.err _ _)
+    rw [show ix2 + k + 1 = ix2 + 1 + k by omega]
+    refine SimB.bind (sim_optWs S fl _) (fun e => ?_)
+    try dsimp only
+    refine SimB.bind (sim_parseDecimal S e) (fun r => ?_)
+    cases r with
+    | none => exact SimB.pure _
+    | some p => exact SimB.pure _
+  try dsimp only
+  refine SimB.bind (sim_optWs S fl _) (fun ix3 => ?_)
+  try dsimp only
+  refine SimB.ite (S.beq_size ix3) (fun _ => SimB.err _ _) (fun _ => ?_)
+  rw [byteAt_shift S]
+  refine SimB.bind (sim_byteAt re1 k ix3 _) (fun b3 => ?_)
+  try dsimp only [id]
+  refine SimB.ite Iff.rfl (fun _ => SimB.err _ _) (fun _ => SimB.ok' (by rw [show ix3 + k + 1 = ix3 + 1 + k by omega]))
+
+theorem decodeAt_shift (S : Shift re1 re2 k) (ix b : Nat) : decodeAt re2 (ix + k) b = decodeAt re1 ix b := by
+  unfold decodeAt
+  dsimp only
+  rw [show ix + k + codepointLen b = ix + codepointLen b + k by omega, S.extract]
+
+theorem sim_findNot (S : Shift re1 re2 k) (pred : Char → Bool) : ∀ (f c ix : Nat),
+    Sim k (Option.map (· + k)) (findNot pred f re1 ix) (findNot pred (f + c) re2 (ix + k)) := by
+  intro f
+  induction f with
+  | zero => intro c ix; trivial
+  | succ f ih =>
+    intro c ix
+    rw [show f + 1 + c = (f + c) + 1 by omega, findNot, findNot, S.get]
+    cases re1[ix]? with
+    | none => exact SimB.ok _
+    | some b =>
+      simp only [decodeAt_shift S]
+      split
+      · rw [show ix + k + (decodeAt re1 ix b).2 = ix + (decodeAt re1 ix b).2 + k by omega]
+        exact ih c _
+      · exact SimB.ok _
+
+/-- shift of the result of `parse_id` -/
+def shId (k : Nat) : Option (Nat × Nat × Nat) → Option (Nat × Nat × Nat) :=
+  Option.map fun t => (t.1 + k, t.2.1 + k, t.2.2)
+
+theorem sim_sliceFrom (re : Bytes) (k a : Nat) (site : String) :
+    Sim k id (sliceFrom re a site) (sliceFrom re a site) := by
+  unfold sliceFrom
+  split
+  · rfl
+  · trivial
+
+theorem sim_parseId (S : Shift re1 re2 k) (isAlnum : Char → Bool) (base : Nat) (open_ close : List Nat)
+    (allowRel : Bool) :
+    Sim k (shId k) (parseId isAlnum re1 base open_ close allowRel)
+      (parseId isAlnum re2 (base + k) open_ close allowRel) := by
+  unfold parseId
+  dsimp only
+  refine SimB.ite Iff.rfl (fun _ => trivial) (fun _ => ?_)
+  · rw [S.startsWithAt]
+    refine SimB.ite Iff.rfl (fun _ => SimB.ok _) (fun _ => ?_)
+    · rw [show base + k + open_.length = base + open_.length + k by omega, sliceFrom_shift S]
+      refine SimB.bind (sim_sliceFrom _ _ _ _) (fun _ => ?_)
+      rw [S.get, S.size]
+      refine SimB.bind (sh := Option.map (· + k)) ?_ (fun afterId => ?_)
+      · split
+        · rw [show base + open_.length + k + 1 = base + open_.length + 1 + k by omega,
+            show re1.size + k + 1 = re1.size + 1 + k by omega]
+          exact sim_findNot S _ _ _ _
+        · rw [show re1.size + k + 1 = re1.size + 1 + k by omega]
+          exact sim_findNot S _ _ _ _
+      refine SimB.bind (sh := id) ?_ (fun idLen => ?_)
+      · cases afterId with
+        | none =>
+          simp only [Option.map_none]
+          split
+          · rw [show re1.size + k - (base + k) = re1.size - base by omega]; rfl
+          · rfl
+        | some p =>
+          simp only [Option.map_some]
+          rw [sliceFrom_shift S]
+          refine SimB.bind (sim_sliceFrom _ _ _ _) (fun _ => ?_)
+          rw [S.startsWithAt]
+          split
+          · rw [show p + k - (base + open_.length + k) = p - (base + open_.length) by omega]; rfl
+          · rfl
+      try dsimp only [id]
+      cases idLen with
+      | none => exact SimB.ok _
+      | some l =>
+        cases l with
+        | zero => exact SimB.ok _
+        | succ l =>
+          simp only
+          rw [show base + open_.length + k + (l + 1) = base + open_.length + (l + 1) + k by omega,
+            sliceOk_shift S]
+          split
+          · trivial
+          · refine SimB.ok' ?_
+            simp only [shId, Option.map_some]
+            rw [show base + open_.length + (l + 1) + k - (base + k) =
+              base + open_.length + (l + 1) - base by omega]
+
+/-- shift of the result of a descent function -/
+def sh3 (k : Nat) : Nat × Expr × PState → Nat × Expr × PState := fun r => (r.1 + k, r.2.1, r.2.2)
+
+theorem half_le (S : Shift re1 re2 k) : re1.size / 2 ≤ re2.size / 2 := by
+  rw [S.size]; omega
+
+theorem sim_parseNumberedBackref (S : Shift re1 re2 k) (st : PState) (ix : Nat) (kind : RefKind) :
+    Sim k (sh3 k) (parseNumberedBackref re1 st ix kind) (parseNumberedBackref re2 st (ix + k) kind) := by
+  unfold parseNumberedBackref
+  refine SimB.bind (sim_parseDecimal S ix) (fun r => ?_)
+  cases r with
+  | none => exact Or.inl trivial
+  | some p =>
+    obtain ⟨e, g⟩ := p
+    simp only [shOpt2, Option.map_some]
+    have := half_le S
+    by_cases hg : g < re1.size / 2
+    · rw [if_pos hg, if_pos (by omega)]; rfl
+    · rw [if_neg hg]; exact Or.inl trivial
+
+theorem sim_parseNamedBackref (S : Shift re1 re2 k) (isAlnum : Char → Bool) (st : PState) (ix : Nat)
+    (open_ close : List Nat) (allowRel : Bool) (kind : RefKind) :
+    Sim k (sh3 k) (parseNamedBackref isAlnum re1 st ix open_ close allowRel kind)
+      (parseNamedBackref isAlnum re2 st (ix + k) open_ close allowRel kind) := by
+  unfold parseNamedBackref
+  rw [sliceFrom_shift S]
+  refine SimB.bind (sim_sliceFrom _ _ _ _) (fun _ => ?_)
+  refine SimB.bind (sim_parseId S isAlnum ix open_ close allowRel) (fun r => ?_)
+  cases r with
+  | none => exact SimB.err _ _
+  | some t =>
+    obtain ⟨a, b, skip⟩ := t
+    simp only [shId, Option.map_some, S.extract]
+    have key : ∀ group : Option Nat, Sim k (sh3 k)
+        (match group.filter (fun g => decide (g < re1.size / 2)) with
+          | some g => Res.ok (ix + skip, kind.mk g, { st with backrefs := bitsetInsert st.backrefs g })
+          | none => Res.err (.invalidGroupNameBackref (re1.extract a b).toList) ix)
+        (match group.filter (fun g => decide (g < re2.size / 2)) with
+          | some g => Res.ok (ix + k + skip, kind.mk g, { st with backrefs := bitsetInsert st.backrefs g })
+          | none => Res.err (.invalidGroupNameBackref (re1.extract a b).toList) (ix + k)) := by
+      intro group
+      have := half_le S
+      cases group with
+      | none => exact Or.inl trivial
+      | some g =>
+        by_cases hg : g < re1.size / 2
+        · have h1 : (some g).filter (fun g => decide (g < re1.size / 2)) = some g := by simp [hg]
+          have h2 : (some g).filter (fun g => decide (g < re2.size / 2)) = some g := by
+            simp; omega
+          rw [h1, h2]
+          exact SimB.ok' (by simp only [sh3]; rw [show ix + k + skip = ix + skip + k by omega])
+        · have h1 : (some g).filter (fun g => decide (g < re1.size / 2)) = none := by simp; omega
+          rw [h1]; exact Or.inl trivial
+    exact key _
+
+theorem sim_hexBraceLoop (S : Shift re1 re2 k) (ix s : Nat) : ∀ (f e : Nat),
+    Sim k (· + k) (hexBraceLoop f re1 ix s e) (hexBraceLoop f re2 (ix + k) (s + k) (e + k)) := by
+  intro f
+  induction f with
+  | zero => intro e; trivial
+  | succ f ih =>
+    intro e
+    rw [hexBraceLoop, hexBraceLoop, S.eq_size, S.get]
+    split
+    · exact SimB.err _ _
+    · cases re1[e]? with
+      | none => trivial
+      | some b =>
+        simp only
+        have e1 : decide (e + k > s + k) = decide (e > s) := by simp
+        have e2 : decide (e + k < s + k + 8) = decide (e < s + 8) := by
+          by_cases h : e < s + 8
+          · simp [h]; omega
+          · simp [h]; omega
+        rw [e1, e2]
+        refine SimB.ite Iff.rfl (fun _ => SimB.ok _) (fun _ => ?_)
+        refine SimB.ite Iff.rfl (fun _ => ?_) (fun _ => SimB.err _ _)
+        rw [show e + k + 1 = e + 1 + k by omega]
+        exact ih _
+
+theorem sim_slice (re : Bytes) (k a b : Nat) (site : String) :
+    Sim k id (slice re a b site) (slice re a b site) := by
+  unfold slice
+  split
+  · rfl
+  · trivial
+
+theorem sim_parseHex (S : Shift re1 re2 k) (fl : Flags) (ix digits : Nat) :
+    Sim k (fun r : Nat × Expr => (r.1 + k, r.2)) (parseHex re1 fl ix digits)
+      (parseHex re2 fl (ix + k) digits) := by
+  unfold parseHex
+  refine SimB.ite (by rw [S.size]; omega) (fun _ => SimB.err _ _) (fun _ => ?_)
+  rw [byteAt_shift S]
+  refine SimB.bind (sim_byteAt re1 k ix _) (fun b => ?_)
+  try dsimp only [id]
+  refine SimB.bind (sh := fun p : Nat × List Nat => (p.1 + k, p.2)) ?_ (fun es => ?_)
+  · rw [show ix + k + digits = ix + digits + k by omega, S.extract, S.size, slice_shift S]
+    have e1 : decide (ix + digits + k ≤ re1.size + k) = decide (ix + digits ≤ re1.size) := by simp
+    rw [e1]
+    refine SimB.ite Iff.rfl (fun _ => ?_) (fun _ => ?_)
+    · refine SimB.bind (sim_slice _ _ _ _ _) (fun s => ?_)
+      exact SimB.pure _
+    refine SimB.ite Iff.rfl (fun _ => ?_) (fun _ => SimB.err _ _)
+    try dsimp only
+    rw [show ix + k + 1 = ix + 1 + k by omega]
+    refine SimB.bind (sim_hexBraceLoop S ix (ix + 1) 16 (ix + 1)) (fun e => ?_)
+    try dsimp only
+    rw [slice_shift S]
+    refine SimB.bind (sim_slice _ _ _ _ _) (fun s => ?_)
+    exact SimB.ok' (by rw [show e + k + 1 = e + 1 + k by omega]; rfl)
+  try dsimp only
+  cases parseHexU32 es.2 with
+  | none => trivial
+  | some cp =>
+    simp only
+    refine SimB.ite Iff.rfl (fun _ => SimB.ok _) (fun _ => SimB.err _ _)
+
+theorem sim_uniNameLoop (S : Shift re1 re2 k) (ix : Nat) : ∀ (f c e : Nat),
+    Sim k (· + k) (uniNameLoop f re1 ix e) (uniNameLoop (f + c) re2 (ix + k) (e + k)) := by
+  intro f
+  induction f with
+  | zero => intro c e; trivial
+  | succ f ih =>
+    intro c e
+    rw [show f + 1 + c = (f + c) + 1 by omega, uniNameLoop, uniNameLoop, S.eq_size, S.get]
+    split
+    · exact SimB.err _ _
+    · cases re1[e]? with
+      | none => trivial
+      | some b =>
+        simp only
+        refine SimB.ite Iff.rfl (fun _ => SimB.ok' (by omega)) (fun _ => ?_)
+        rw [show e + k + codepointLen b = e + codepointLen b + k by omega]
+        exact ih _ _
+
+theorem SimB.ok3 {bad : PErr → Prop} {k : Nat} {a b : Nat} {e : Expr} {st : PState} (h : b = a + k) :
+    SimB bad k (sh3 k) (.ok (a, e, st)) (.ok (b, e, st)) := by subst h; rfl
+
+theorem sim_parseEscape (S : Shift re1 re2 k) (isAlnum : Char → Bool) (st : PState) (ix : Nat)
+    (inClass : Bool) :
+    Sim k (sh3 k) (parseEscape isAlnum re1 st ix inClass) (parseEscape isAlnum re2 st (ix + k) inClass) := by
+  unfold parseEscape
+  rw [show ix + k + 1 = ix + 1 + k by omega, S.get]
+  cases re1[ix + 1]? with
+  | none => exact SimB.err _ _
+  | some b =>
+    simp only
+    rw [show ix + 1 + k + codepointLen b = ix + 1 + codepointLen b + k by omega]
+    generalize ix + 1 + codepointLen b = e
+    rw [S.get, S.eq_size]
+    have hne : (e + k != re2.size) = (e != re1.size) := by
+      unfold bne; rw [S.eq_size]
+    rw [hne]
+    have hnamed : ∀ (o c : List Nat) (kind : RefKind),
+        Sim k (sh3 k) (parseNamedBackref isAlnum re1 st e o c true kind)
+          (parseNamedBackref isAlnum re2 st (e + k) o c true kind) :=
+      fun o c kind => sim_parseNamedBackref S isAlnum st e o c true kind
+    have hok : ∀ (x : Expr), Sim k (sh3 k) (.ok (e, x, st)) (.ok (e + k, x, st)) := fun x => SimB.ok3 rfl
+    have hhex : ∀ digits, Sim k (sh3 k)
+        (do let (e', x) ← parseHex re1 st.flags e digits; Res.ok (e', x, st))
+        (do let (e', x) ← parseHex re2 st.flags (e + k) digits; Res.ok (e', x, st)) := by
+      intro digits
+      refine SimB.bind (sim_parseHex S st.flags e digits) (fun r => ?_)
+      obtain ⟨e', x⟩ := r
+      exact SimB.ok3 rfl
+    -- digit
+    refine SimB.ite Iff.rfl (fun _ => sim_parseNumberedBackref S st (ix + 1) _) (fun _ => ?_)
+    -- \k
+    refine SimB.ite Iff.rfl (fun _ => ?_) (fun _ => ?_)
+    · exact SimB.ite Iff.rfl (fun _ => hnamed _ _ _) (fun _ => hnamed _ _ _)
+    -- \A \z \Z
+    refine SimB.ite Iff.rfl (fun _ => hok _) (fun _ => ?_)
+    refine SimB.ite Iff.rfl (fun _ => hok _) (fun _ => ?_)
+    refine SimB.ite Iff.rfl (fun _ => hok _) (fun _ => ?_)
+    -- \b
+    refine SimB.ite Iff.rfl (fun _ => ?_) (fun _ => ?_)
+    · refine SimB.ite Iff.rfl (fun _ => ?_) (fun _ => hok _)
+      rw [slice_shift S]
+      exact SimB.bind (sim_slice _ _ _ _ _) (fun s => SimB.err _ _)
+    -- \B
+    refine SimB.ite Iff.rfl (fun _ => ?_) (fun _ => ?_)
+    · refine SimB.ite Iff.rfl (fun _ => ?_) (fun _ => hok _)
+      rw [slice_shift S]
+      exact SimB.bind (sim_slice _ _ _ _ _) (fun s => SimB.err _ _)
+    -- \< \>
+    refine SimB.ite Iff.rfl (fun _ => hok _) (fun _ => ?_)
+    refine SimB.ite Iff.rfl (fun _ => hok _) (fun _ => ?_)
+    -- \d \s \w
+    refine SimB.ite Iff.rfl (fun _ => ?_) (fun _ => ?_)
+    · rw [slice_shift S]
+      exact SimB.bind (sim_slice _ _ _ _ _) (fun s => hok _)
+    -- \h
+    refine SimB.ite Iff.rfl (fun _ => hok _) (fun _ => ?_)
+    -- \x \u \U
+    refine SimB.ite Iff.rfl (fun _ => hhex 2) (fun _ => ?_)
+    refine SimB.ite Iff.rfl (fun _ => hhex 4) (fun _ => ?_)
+    refine SimB.ite Iff.rfl (fun _ => hhex 8) (fun _ => ?_)
+    -- \p
+    refine SimB.ite Iff.rfl (fun _ => ?_) (fun _ => ?_)
+    · rw [byteAt_shift S]
+      refine SimB.bind (sim_byteAt re1 k e _) (fun b2 => ?_)
+      try dsimp only [id]
+      refine SimB.bind (sh := (· + k)) ?_ (fun e2 => ?_)
+      · refine SimB.ite Iff.rfl (fun _ => ?_) (fun _ => SimB.ok' (by omega))
+        rw [S.size, show re1.size + k + 1 = re1.size + 1 + k by omega,
+          show e + k + codepointLen b2 = e + codepointLen b2 + k by omega]
+        exact sim_uniNameLoop S ix _ _ _
+      try dsimp only
+      rw [slice_shift S]
+      exact SimB.bind (sim_slice _ _ _ _ _) (fun s => SimB.ok3 rfl)
+    -- \K \G
+    refine SimB.ite Iff.rfl (fun _ => hok _) (fun _ => ?_)
+    refine SimB.ite Iff.rfl (fun _ => hok _) (fun _ => ?_)
+    -- \g
+    refine SimB.ite Iff.rfl (fun _ => ?_) (fun _ => ?_)
+    · refine SimB.ite Iff.rfl (fun _ => SimB.err _ _) (fun _ => ?_)
+      rw [byteAt_shift S]
+      refine SimB.bind (sim_byteAt re1 k e _) (fun b2 => ?_)
+      try dsimp only [id]
+      refine SimB.ite Iff.rfl (fun _ => sim_parseNumberedBackref S st e _) (fun _ => ?_)
+      exact SimB.ite Iff.rfl (fun _ => hnamed _ _ _) (fun _ => hnamed _ _ _)
+    -- single letters
+    refine SimB.ite Iff.rfl (fun _ => hok _) (fun _ => ?_)
+    refine SimB.ite Iff.rfl (fun _ => hok _) (fun _ => ?_)
+    refine SimB.ite Iff.rfl (fun _ => hok _) (fun _ => ?_)
+    refine SimB.ite Iff.rfl (fun _ => hok _) (fun _ => ?_)
+    refine SimB.ite Iff.rfl (fun _ => hok _) (fun _ => ?_)
+    refine SimB.ite Iff.rfl (fun _ => hok _) (fun _ => ?_)
+    refine SimB.ite Iff.rfl (fun _ => hok _) (fun _ => ?_)
+    refine SimB.ite Iff.rfl (fun _ => hok _) (fun _ => ?_)
+    refine SimB.ite Iff.rfl (fun _ => hok _) (fun _ => ?_)
+    rw [slice_shift S]
+    refine SimB.bind (sim_slice _ _ _ _ _) (fun s => ?_)
+    exact SimB.ite Iff.rfl (fun _ => SimB.err _ _) (fun _ => hok _)
+
+/-- shift of the result of the class loop -/
+def shC (k : Nat) : Nat × List Char × PState → Nat × List Char × PState := fun r => (r.1 + k, r.2)
+
+theorem sim_classLoop (S : Shift re1 re2 k) (isAlnum : Char → Bool) : ∀ (f c : Nat) (st : PState)
+    (ix : Nat) (nest : Int) (rcls : List Char),
+    Sim k (shC k) (classLoop isAlnum f re1 st ix nest rcls)
+      (classLoop isAlnum (f + c) re2 st (ix + k) nest rcls) := by
+  intro f
+  induction f with
+  | zero => intro c st ix nest rcls; trivial
+  | succ f ih =>
+    intro c st ix nest rcls
+    rw [show f + 1 + c = (f + c) + 1 by omega, classLoop, classLoop, S.eq_size, S.get]
+    split
+    · exact SimB.err _ _
+    · cases re1[ix]? with
+      | none => trivial
+      | some b =>
+        simp only
+        refine SimB.ite Iff.rfl (fun _ => ?_) (fun _ => ?_)
+        · have hesc := sim_parseEscape S isAlnum st ix true
+          generalize parseEscape isAlnum re1 st ix true = x1 at hesc ⊢
+          generalize parseEscape isAlnum re2 st (ix + k) true = x2 at hesc ⊢
+          cases x1 with
+          | ok r =>
+            obtain ⟨end_, e, st'⟩ := r
+            simp only [SimB, sh3] at hesc; subst hesc
+            simp only
+            cases e with
+            | literal val ci =>
+              simp only
+              split
+              · trivial
+              · exact ih _ _ _ _ _
+            | delegate inner size ci => exact ih _ _ _ _ _
+            | _ => exact SimB.err _ _
+          | err e p =>
+            rcases hesc with h | h
+            · exact Or.inl h
+            · subst h; exact Or.inr rfl
+          | cerr => simp only [SimB] at hesc; subst hesc; rfl
+          | panic s => trivial
+          | outOfFuel => trivial
+        refine SimB.ite Iff.rfl (fun _ => ?_) (fun _ => ?_)
+        · rw [show ix + k + 1 = ix + 1 + k by omega]; exact ih _ _ _ _ _
+        refine SimB.ite Iff.rfl (fun _ => ?_) (fun _ => ?_)
+        · refine SimB.ite Iff.rfl (fun _ => SimB.ok _) (fun _ => ?_)
+          rw [show ix + k + 1 = ix + 1 + k by omega]; exact ih _ _ _ _ _
+        · rw [show ix + k + codepointLen b = ix + codepointLen b + k by omega, slice_shift S]
+          by_cases hs : sliceOk re1 ix (ix + codepointLen b) = true
+          · simp only [slice, hs, ↓reduceIte]
+            exact ih _ _ _ _ _
+          · simp only [slice, hs, Bool.false_eq_true, ↓reduceIte]
+            trivial
+
+theorem sim_parseClass (S : Shift re1 re2 k) (isAlnum : Char → Bool) (st : PState) (ix : Nat) :
+    Sim k (sh3 k) (parseClass isAlnum re1 st ix) (parseClass isAlnum re2 st (ix + k)) := by
+  unfold parseClass
+  dsimp only
+  rw [show ix + k + 1 = ix + 1 + k by omega, S.get]
+  by_cases h1 : (re1[ix + 1]? == some (ch '^')) = true
+  · simp only [h1, ↓reduceIte]
+    rw [show ix + 1 + k + 1 = ix + 1 + 1 + k by omega, S.get]
+    by_cases h2 : (re1[ix + 1 + 1]? == some (ch ']')) = true
+    · simp only [h2, ↓reduceIte]
+      rw [show ix + 1 + 1 + k + 1 = ix + 1 + 1 + 1 + k by omega, S.size,
+        show re1.size + k + 2 = re1.size + 2 + k by omega]
+      refine SimB.bind (sim_classLoop S isAlnum _ _ st _ 1 _) (fun r => ?_)
+      obtain ⟨i, r, s⟩ := r
+      exact SimB.ok3 (by simp only [shC]; omega)
+    · simp only [h2, Bool.false_eq_true, ↓reduceIte]
+      rw [S.size, show re1.size + k + 2 = re1.size + 2 + k by omega]
+      refine SimB.bind (sim_classLoop S isAlnum _ _ st _ 1 _) (fun r => ?_)
+      obtain ⟨i, r, s⟩ := r
+      exact SimB.ok3 (by simp only [shC]; omega)
+  · simp only [h1, Bool.false_eq_true, ↓reduceIte]
+    rw [S.get]
+    by_cases h2 : (re1[ix + 1]? == some (ch ']')) = true
+    · simp only [h2, ↓reduceIte]
+      rw [show ix + 1 + k + 1 = ix + 1 + 1 + k by omega, S.size,
+        show re1.size + k + 2 = re1.size + 2 + k by omega]
+      refine SimB.bind (sim_classLoop S isAlnum _ _ st _ 1 _) (fun r => ?_)
+      obtain ⟨i, r, s⟩ := r
+      exact SimB.ok3 (by simp only [shC]; omega)
+    · simp only [h2, Bool.false_eq_true, ↓reduceIte]
+      rw [S.size, show re1.size + k + 2 = re1.size + 2 + k by omega]
+      refine SimB.bind (sim_classLoop S isAlnum _ _ st _ 1 _) (fun r => ?_)
+      obtain ⟨i, r, s⟩ := r
+      exact SimB.ok3 (by simp only [shC]; omega)
+
+theorem sim_checkForCloseParen (S : Shift re1 re2 k) (fl : Flags) (ix : Nat) :
+    Sim k (· + k) (checkForCloseParen re1 fl ix) (checkForCloseParen re2 fl (ix + k)) := by
+  unfold checkForCloseParen
+  refine SimB.bind (sim_optWs S fl ix) (fun ix1 => ?_)
+  try dsimp only
+  refine SimB.ite (S.beq_size ix1) (fun _ => SimB.err _ _) (fun _ => ?_)
+  rw [byteAt_shift S]
+  refine SimB.bind (sim_byteAt re1 k ix1 _) (fun b => ?_)
+  try dsimp only [id]
+  exact SimB.ite Iff.rfl (fun _ => SimB.err _ _) (fun _ => SimB.ok' (by omega))
+
+/-- `unknown_flag` builds the same error value -/
+theorem unknownFlag_shift (S : Shift re1 re2 k) (start e : Nat) :
+    unknownFlag re2 (start + k) (e + k) = unknownFlag re1 start e := by
+  unfold unknownFlag
+  rw [byteAt_shift S]
+  cases byteAt re1 e "unknown_flag: bytes[end]" with
+  | ok b =>
+    simp only [Res.ok_bind]
+    rw [show e + k + codepointLen b = e + codepointLen b + k by omega, slice_shift S]
+  | _ => rfl
+
+/-- shift of where the letter loop of `parse_flags` stops -/
+def shFE (k : Nat) : FlagsEnd × Flags → FlagsEnd × Flags
+  | (.close i, fl) => (.close (i + k), fl)
+  | (.colon i, fl) => (.colon (i + k), fl)
+
+theorem sim_flagsLoop (S : Shift re1 re2 k) (start : Nat) : ∀ (f c : Nat) (fl : Flags) (ix : Nat)
+    (neg : Bool),
+    Sim k (shFE k) (flagsLoop f re1 fl start ix neg) (flagsLoop (f + c) re2 fl (start + k) (ix + k) neg) := by
+  intro f
+  induction f with
+  | zero => intro c fl ix neg; trivial
+  | succ f ih =>
+    intro c fl ix neg
+    rw [show f + 1 + c = (f + c) + 1 by omega, flagsLoop, flagsLoop]
+    have hws := sim_optWs (bad := BadErr) S fl ix
+    generalize optWs re1 fl ix = x1 at hws ⊢
+    generalize optWs re2 fl (ix + k) = x2 at hws ⊢
+    cases x1 with
+    | ok ix1 =>
+      simp only [SimB] at hws; subst hws
+      simp only
+      rw [S.eq_size, S.get, unknownFlag_shift S]
+      have uf : Sim k (shFE k)
+          (match unknownFlag re1 start ix1 with
+            | .ok e => .err e start
+            | .err k p => .err k p | .cerr => .cerr | .panic s => .panic s | .outOfFuel => .outOfFuel)
+          (match unknownFlag re1 start ix1 with
+            | .ok e => .err e (start + k)
+            | .err k p => .err k p | .cerr => .cerr | .panic s => .panic s | .outOfFuel => .outOfFuel) := by
+        unfold unknownFlag byteAt
+        cases re1[ix1]? with
+        | none => trivial
+        | some b =>
+          simp only [Res.ok_bind]
+          by_cases hs : sliceOk re1 start (ix1 + codepointLen b) = true
+          · simp only [slice, hs, ↓reduceIte, Res.ok_bind]
+            exact SimB.err _ _
+          · simp only [slice, hs, Bool.false_eq_true, ↓reduceIte]
+            trivial
+      have next : ∀ fl' neg', Sim k (shFE k) (flagsLoop f re1 fl' start (ix1 + 1) neg')
+          (flagsLoop (f + c) re2 fl' (start + k) (ix1 + k + 1) neg') := by
+        intro fl' neg'
+        rw [show ix1 + k + 1 = ix1 + 1 + k by omega]; exact ih _ _ _ _
+      split
+      · exact SimB.err _ _
+      · cases re1[ix1]? with
+        | none => trivial
+        | some b =>
+          simp only
+          refine SimB.ite Iff.rfl (fun _ => next _ _) (fun _ => ?_)
+          refine SimB.ite Iff.rfl (fun _ => ?_) (fun _ => ?_)
+          · exact SimB.ite Iff.rfl (fun _ => SimB.err _ _) (fun _ => next _ _)
+          refine SimB.ite Iff.rfl (fun _ => ?_) (fun _ => ?_)
+          · exact SimB.ite Iff.rfl (fun _ => uf) (fun _ => next _ _)
+          have e1 : (ix1 + k == start + k) = (ix1 == start) := by
+            by_cases h : ix1 = start
+            · subst h; simp
+            · have h' : ix1 + k ≠ start + k := by omega
+              rw [beq_false_of_ne h, beq_false_of_ne h']
+          have e2 : (ix1 + k == start + k + 1) = (ix1 == start + 1) := by
+            by_cases h : ix1 = start + 1
+            · subst h
+              rw [show start + 1 + k = start + k + 1 by omega]; simp
+            · have h' : ix1 + k ≠ start + k + 1 := by omega
+              rw [beq_false_of_ne h, beq_false_of_ne h']
+          rw [e1, e2]
+          refine SimB.ite Iff.rfl (fun _ => ?_) (fun _ => ?_)
+          · exact SimB.ite Iff.rfl (fun _ => uf) (fun _ => SimB.ok _)
+          refine SimB.ite Iff.rfl (fun _ => ?_) (fun _ => uf)
+          exact SimB.ite Iff.rfl (fun _ => uf) (fun _ => SimB.ok _)
+    | err e p =>
+      rcases hws with h | h
+      · exact Or.inl h
+      · subst h; exact Or.inr rfl
+    | cerr => simp only [SimB] at hws; subst hws; rfl
+    | panic s => trivial
+    | outOfFuel => trivial
+
+theorem lookOf_shift (S : Shift re1 re2 k) (ix : Nat) : lookOf re2 (ix + k) = lookOf re1 ix := by
+  unfold lookOf
+  simp only [S.startsWithAt]
+
+end leaves
+
+/-! ### the descent -/
+section descent
+variable {re1 re2 : Bytes} {k : Nat} {isAlnum : Char → Bool}
+
+/-- shift of the result of the two loops of the descent -/
+def shL (k : Nat) : Nat × List Expr × PState → Nat × List Expr × PState := fun r => (r.1 + k, r.2.1, r.2.2)
+
+/-- the induction hypothesis: all nine functions, run 1 with fuel `f`, run 2 with fuel `f + c` -/
+structure DescSim (re1 re2 : Bytes) (k : Nat) (isAlnum : Char → Bool) (f c : Nat) : Prop where
+  re_ : ∀ st ix d, Sim k (sh3 k) (parseRe isAlnum f re1 st ix d) (parseRe isAlnum (f + c) re2 st (ix + k) d)
+  alt_ : ∀ st ix d, Sim k (shL k) (reAltLoop isAlnum f re1 st ix d) (reAltLoop isAlnum (f + c) re2 st (ix + k) d)
+  branch_ : ∀ st ix d,
+    Sim k (sh3 k) (parseBranch isAlnum f re1 st ix d) (parseBranch isAlnum (f + c) re2 st (ix + k) d)
+  bloop_ : ∀ st ix d,
+    Sim k (shL k) (branchLoop isAlnum f re1 st ix d) (branchLoop isAlnum (f + c) re2 st (ix + k) d)
+  piece_ : ∀ st ix d,
+    Sim k (sh3 k) (parsePiece isAlnum f re1 st ix d) (parsePiece isAlnum (f + c) re2 st (ix + k) d)
+  atom_ : ∀ st ix d,
+    Sim k (sh3 k) (parseAtom isAlnum f re1 st ix d) (parseAtom isAlnum (f + c) re2 st (ix + k) d)
+  group_ : ∀ st ix d,
+    Sim k (sh3 k) (parseGroup isAlnum f re1 st ix d) (parseGroup isAlnum (f + c) re2 st (ix + k) d)
+  flags_ : ∀ st ix d,
+    Sim k (sh3 k) (parseFlags isAlnum f re1 st ix d) (parseFlags isAlnum (f + c) re2 st (ix + k) d)
+  cond_ : ∀ st ix d,
+    Sim k (sh3 k) (parseConditional isAlnum f re1 st ix d)
+      (parseConditional isAlnum (f + c) re2 st (ix + k) d)
+
+theorem sstep_parseRe (S : Shift re1 re2 k) {f c : Nat} (h : DescSim re1 re2 k isAlnum f c)
+    (st : PState) (ix d : Nat) :
+    Sim k (sh3 k) (parseRe isAlnum (f + 1) re1 st ix d) (parseRe isAlnum (f + 1 + c) re2 st (ix + k) d) := by
+  rw [show f + 1 + c = (f + c) + 1 by omega, parseRe, parseRe]
+  refine SimB.bind (h.branch_ st ix d) (fun r => ?_)
+  obtain ⟨ix1, child, st1⟩ := r
+  simp only [sh3]
+  refine SimB.bind (sim_optWs S _ ix1) (fun ix2 => ?_)
+  try dsimp only
+  rw [sliceFrom_shift S]
+  refine SimB.bind (sim_sliceFrom _ _ _ _) (fun _ => ?_)
+  rw [S.get]
+  refine SimB.ite Iff.rfl (fun _ => ?_) (fun _ => ?_)
+  · refine SimB.bind (h.alt_ st1 ix2 d) (fun r => ?_)
+    obtain ⟨ix3, rest, st3⟩ := r
+    exact SimB.ok3 rfl
+  · try dsimp only
+    exact SimB.ite Iff.rfl (fun _ => rfl) (fun _ => SimB.ok3 rfl)
+
+theorem sstep_reAltLoop (S : Shift re1 re2 k) {f c : Nat} (h : DescSim re1 re2 k isAlnum f c)
+    (st : PState) (ix d : Nat) :
+    Sim k (shL k) (reAltLoop isAlnum (f + 1) re1 st ix d)
+      (reAltLoop isAlnum (f + 1 + c) re2 st (ix + k) d) := by
+  rw [show f + 1 + c = (f + c) + 1 by omega, reAltLoop, reAltLoop, sliceFrom_shift S]
+  refine SimB.bind (sim_sliceFrom _ _ _ _) (fun _ => ?_)
+  rw [S.get]
+  refine SimB.ite Iff.rfl (fun _ => ?_) (fun _ => SimB.ok' rfl)
+  rw [show ix + k + 1 = ix + 1 + k by omega]
+  refine SimB.bind (h.branch_ st (ix + 1) d) (fun r => ?_)
+  obtain ⟨ix1, child, st1⟩ := r
+  simp only [sh3]
+  refine SimB.bind (sim_optWs S _ ix1) (fun ix2 => ?_)
+  try dsimp only
+  refine SimB.bind (h.alt_ st1 ix2 d) (fun r => ?_)
+  obtain ⟨ix3, rest, st3⟩ := r
+  exact SimB.ok' rfl
+
+theorem sstep_parseBranch {f c : Nat} (h : DescSim re1 re2 k isAlnum f c)
+    (st : PState) (ix d : Nat) :
+    Sim k (sh3 k) (parseBranch isAlnum (f + 1) re1 st ix d)
+      (parseBranch isAlnum (f + 1 + c) re2 st (ix + k) d) := by
+  rw [show f + 1 + c = (f + c) + 1 by omega, parseBranch, parseBranch]
+  refine SimB.bind (h.bloop_ st ix d) (fun r => ?_)
+  obtain ⟨ix1, children, st1⟩ := r
+  simp only [shL]
+  match children with
+  | [] => exact SimB.ok3 rfl
+  | [_] => exact SimB.ok3 rfl
+  | _ :: _ :: _ => exact SimB.ok3 rfl
+
+theorem sstep_branchLoop (S : Shift re1 re2 k) {f c : Nat} (h : DescSim re1 re2 k isAlnum f c)
+    (st : PState) (ix d : Nat) :
+    Sim k (shL k) (branchLoop isAlnum (f + 1) re1 st ix d)
+      (branchLoop isAlnum (f + 1 + c) re2 st (ix + k) d) := by
+  rw [show f + 1 + c = (f + c) + 1 by omega, branchLoop, branchLoop]
+  refine SimB.ite (by rw [S.size]; omega) (fun _ => ?_) (fun _ => SimB.ok' rfl)
+  refine SimB.bind (h.piece_ st ix d) (fun r => ?_)
+  obtain ⟨next, child, st1⟩ := r
+  simp only [sh3]
+  refine SimB.ite (by simp) (fun _ => SimB.ok' rfl) (fun _ => ?_)
+  refine SimB.bind (h.bloop_ st1 next d) (fun r => ?_)
+  obtain ⟨ix3, rest, st3⟩ := r
+  exact SimB.ok' rfl
+
+/-- shift of the quantifier read by `parse_piece` -/
+def shQ (k : Nat) : Option (Nat × Nat × Nat) → Option (Nat × Nat × Nat) :=
+  Option.map fun q => (q.1, q.2.1, q.2.2 + k)
+
+theorem sim_quantAt (S : Shift re1 re2 k) (fl : Flags) (ix b : Nat) :
+    Sim k (shQ k) (quantAt re1 fl ix b) (quantAt re2 fl (ix + k) b) := by
+  unfold quantAt
+  refine SimB.ite Iff.rfl (fun _ => SimB.pure _) (fun _ => ?_)
+  refine SimB.ite Iff.rfl (fun _ => SimB.pure _) (fun _ => ?_)
+  refine SimB.ite Iff.rfl (fun _ => SimB.pure _) (fun _ => ?_)
+  refine SimB.ite Iff.rfl (fun _ => ?_) (fun _ => SimB.pure _)
+  have hrep := sim_parseRepeat (bad := fun _ => False) S fl ix
+  generalize parseRepeat re1 fl ix = x1 at hrep ⊢
+  generalize parseRepeat re2 fl (ix + k) = x2 at hrep ⊢
+  cases x1 with
+  | ok r =>
+    obtain ⟨next, lo, hi⟩ := r
+    simp only [SimB] at hrep; subst hrep
+    simp only
+    by_cases hz : next = 0
+    · subst hz; simp only [beq_self_eq_true, ↓reduceIte]; trivial
+    · have e1 : (next == 0) = false := by simpa using hz
+      have e2 : (next + k == 0) = false := by simpa using (by omega : next + k ≠ 0)
+      simp only [e1, e2, Bool.false_eq_true, ↓reduceIte]
+      exact SimB.ok' (by simp only [shQ, Option.map_some]; rw [show next + k - 1 = next - 1 + k by omega])
+  | err e p =>
+    rcases hrep with h | h
+    · exact h.elim
+    · subst h; exact SimB.pure _
+  | cerr => simp only [SimB] at hrep; subst hrep; exact SimB.pure _
+  | panic s => trivial
+  | outOfFuel => trivial
+
+theorem lazyAt_shift (S : Shift re1 re2 k) (ix : Nat) : lazyAt re2 (ix + k) = lazyAt re1 ix := by
+  unfold lazyAt
+  rw [S.get, S.size]
+  have : decide (ix + k < re1.size + k) = decide (ix < re1.size) := by simp
+  rw [this]
+
+theorem afterLazy_shift (S : Shift re1 re2 k) (ix : Nat) : afterLazy re2 (ix + k) = afterLazy re1 ix + k := by
+  unfold afterLazy
+  rw [lazyAt_shift S]
+  split <;> omega
+
+theorem repNode_shift (S : Shift re1 re2 k) (st : PState) (child : Expr) (lo hi ix : Nat) :
+    repNode re2 st child lo hi (ix + k) = repNode re1 st child lo hi ix := by
+  unfold repNode
+  rw [lazyAt_shift S]
+
+theorem sstep_parsePiece (S : Shift re1 re2 k) {f c : Nat} (h : DescSim re1 re2 k isAlnum f c)
+    (st : PState) (ix d : Nat) :
+    Sim k (sh3 k) (parsePiece isAlnum (f + 1) re1 st ix d)
+      (parsePiece isAlnum (f + 1 + c) re2 st (ix + k) d) := by
+  rw [show f + 1 + c = (f + c) + 1 by omega, parsePiece_eq, parsePiece_eq]
+  refine SimB.bind (h.atom_ st ix d) (fun r => ?_)
+  obtain ⟨ix1, child, st1⟩ := r
+  simp only [sh3]
+  refine SimB.bind (sim_optWs S _ ix1) (fun ix2 => ?_)
+  try dsimp only
+  refine SimB.ite (by rw [S.size]; omega) (fun _ => ?_) (fun _ => SimB.ok3 rfl)
+  rw [byteAt_shift S]
+  refine SimB.bind (sim_byteAt re1 k ix2 _) (fun b => ?_)
+  try dsimp only [id]
+  refine SimB.bind (sim_quantAt S st1.flags ix2 b) (fun q => ?_)
+  cases q with
+  | none => exact SimB.ok3 rfl
+  | some p =>
+    obtain ⟨lo, hi, qe⟩ := p
+    simp only [shQ, Option.map_some]
+    refine SimB.ite Iff.rfl (fun _ => SimB.err _ _) (fun _ => ?_)
+    rw [show qe + k + 1 = qe + 1 + k by omega]
+    refine SimB.bind (sim_optWs S _ (qe + 1)) (fun ix3 => ?_)
+    try dsimp only
+    rw [afterLazy_shift S, S.get, repNode_shift S]
+    refine SimB.ite Iff.rfl (fun _ => SimB.ok3 (by omega)) (fun _ => SimB.ok3 rfl)
+
+theorem sstep_parseAtom (S : Shift re1 re2 k) {f c : Nat} (h : DescSim re1 re2 k isAlnum f c)
+    (st : PState) (ix d : Nat) :
+    Sim k (sh3 k) (parseAtom isAlnum (f + 1) re1 st ix d)
+      (parseAtom isAlnum (f + 1 + c) re2 st (ix + k) d) := by
+  rw [show f + 1 + c = (f + c) + 1 by omega, parseAtom, parseAtom]
+  refine SimB.bind (sim_optWs S _ ix) (fun ix1 => ?_)
+  try dsimp only
+  refine SimB.ite (S.beq_size ix1) (fun _ => SimB.ok3 rfl) (fun _ => ?_)
+  rw [byteAt_shift S]
+  refine SimB.bind (sim_byteAt re1 k ix1 _) (fun b => ?_)
+  try dsimp only [id]
+  refine SimB.ite Iff.rfl (fun _ => SimB.ok3 (by omega)) (fun _ => ?_)
+  refine SimB.ite Iff.rfl (fun _ => SimB.ok3 (by omega)) (fun _ => ?_)
+  refine SimB.ite Iff.rfl (fun _ => SimB.ok3 (by omega)) (fun _ => ?_)
+  refine SimB.ite Iff.rfl (fun _ => h.group_ st ix1 d) (fun _ => ?_)
+  refine SimB.ite Iff.rfl (fun _ => sim_parseEscape S isAlnum st ix1 false) (fun _ => ?_)
+  refine SimB.ite Iff.rfl (fun _ => SimB.ok3 rfl) (fun _ => ?_)
+  refine SimB.ite Iff.rfl (fun _ => sim_parseClass S isAlnum st ix1) (fun _ => ?_)
+  try dsimp only
+  rw [show ix1 + k + codepointLen b = ix1 + codepointLen b + k by omega, slice_shift S]
+  exact SimB.bind (sim_slice _ _ _ _ _) (fun s => SimB.ok3 rfl)
+
+/-- the local closure `body` of `parse_group` -/
+def groupBody (isAlnum : Char → Bool) (f : Nat) (re : Bytes) (ix depth : Nat) (la : Option Look)
+    (skip : Nat) (st : PState) : Res (Nat × Expr × PState) := do
+  let ix := ix + skip
+  let (ix, child, st) ← parseRe isAlnum f re st ix depth
+  let ix ← checkForCloseParen re st.flags ix
+  match la with
+  | some la => .ok (ix, .look child la, st)
+  | none => if skip == 2 then .ok (ix, .atomic child, st) else .ok (ix, .group 0 child, st)
+
+/-- `parse_group` with its closure named -/
+theorem parseGroup_eq (isAlnum : Char → Bool) (re : Bytes) (f : Nat) (st : PState) (ix depth : Nat) :
+    parseGroup isAlnum (f + 1) re st ix depth = (do
+      if depth + 1 ≥ Generated.maxRecursion then .err .recursionExceeded ix
+      else
+        let ix ← optWs re st.flags (ix + 1)
+        sliceFrom re ix "parse_group: self.re[ix..]"
+        match lookOf re ix with
+        | some (la, skip) => groupBody isAlnum f re ix (depth + 1) (some la) skip st
+        | none =>
+          if startsWithAt re ix [ch '?', ch '<'] then
+            let st := { st with currGroup := st.currGroup + 1 }
+            sliceFrom re (ix + 1) "parse_group: self.re[ix + 1..]"
+            match ← parseId isAlnum re (ix + 1) [ch '<'] [ch '>'] false with
+            | some (a, b, skip) =>
+              let st := { st with namedGroups := namedInsert st.namedGroups (re.extract a b).toList st.currGroup }
+              groupBody isAlnum f re ix (depth + 1) none (skip + 1) st
+            | none => .err .invalidGroupName ix
+          else if startsWithAt re ix [ch '?', ch 'P', ch '<'] then
+            let st := { st with currGroup := st.currGroup + 1 }
+            sliceFrom re (ix + 2) "parse_group: self.re[ix + 2..]"
+            match ← parseId isAlnum re (ix + 2) [ch '<'] [ch '>'] false with
+            | some (a, b, skip) =>
+              let st := { st with namedGroups := namedInsert st.namedGroups (re.extract a b).toList st.currGroup }
+              groupBody isAlnum f re ix (depth + 1) none (skip + 2) st
+            | none => .err .invalidGroupName ix
+          else if startsWithAt re ix [ch '?', ch 'P', ch '='] then
+            parseNamedBackref isAlnum re st (ix + 3) [] [ch ')'] false .backref
+          else if startsWithAt re ix [ch '?', ch '>'] then groupBody isAlnum f re ix (depth + 1) none 2 st
+          else if startsWithAt re ix [ch '?', ch '('] then
+            parseConditional isAlnum f re st (ix + 2) (depth + 1)
+          else if startsWithAt re ix [ch '?', ch 'P', ch '>'] then
+            parseNamedBackref isAlnum re st (ix + 3) [] [ch ')'] false .subroutine
+          else if startsWithAt re ix [ch '?'] then parseFlags isAlnum f re st ix (depth + 1)
+          else groupBody isAlnum f re ix (depth + 1) none 0 { st with currGroup := st.currGroup + 1 }) := by
+  rw [parseGroup]
+  rfl
+
+theorem sim_groupBody (S : Shift re1 re2 k) {f c : Nat} (h : DescSim re1 re2 k isAlnum f c)
+    (ix d : Nat) (la : Option Look) (skip : Nat) (st : PState) :
+    Sim k (sh3 k) (groupBody isAlnum f re1 ix d la skip st)
+      (groupBody isAlnum (f + c) re2 (ix + k) d la skip st) := by
+  unfold groupBody
+  dsimp only
+  rw [show ix + k + skip = ix + skip + k by omega]
+  refine SimB.bind (h.re_ st (ix + skip) d) (fun r => ?_)
+  obtain ⟨ix2, child, st2⟩ := r
+  simp only [sh3]
+  refine SimB.bind (sim_checkForCloseParen S _ ix2) (fun ix3 => ?_)
+  try dsimp only
+  cases la with
+  | some la => exact SimB.ok3 rfl
+  | none => exact SimB.ite Iff.rfl (fun _ => SimB.ok3 rfl) (fun _ => SimB.ok3 rfl)
+
+theorem sstep_parseGroup (S : Shift re1 re2 k) {f c : Nat} (h : DescSim re1 re2 k isAlnum f c)
+    (st : PState) (ix d : Nat) :
+    Sim k (sh3 k) (parseGroup isAlnum (f + 1) re1 st ix d)
+      (parseGroup isAlnum (f + 1 + c) re2 st (ix + k) d) := by
+  rw [show f + 1 + c = (f + c) + 1 by omega, parseGroup_eq, parseGroup_eq]
+  refine SimB.ite Iff.rfl (fun _ => SimB.err _ _) (fun _ => ?_)
+  rw [show ix + k + 1 = ix + 1 + k by omega]
+  refine SimB.bind (sim_optWs S _ (ix + 1)) (fun ix1 => ?_)
+  try dsimp only
+  rw [sliceFrom_shift S]
+  refine SimB.bind (sim_sliceFrom _ _ _ _) (fun _ => ?_)
+  rw [lookOf_shift S]
+  cases lookOf re1 ix1 with
+  | some p =>
+    obtain ⟨la, skip⟩ := p
+    exact sim_groupBody S h ix1 (d + 1) _ _ _
+  | none =>
+    simp only [S.startsWithAt]
+    -- (?<name>
+    refine SimB.ite Iff.rfl (fun _ => ?_) (fun _ => ?_)
+    · rw [show ix1 + k + 1 = ix1 + 1 + k by omega, sliceFrom_shift S]
+      refine SimB.bind (sim_sliceFrom _ _ _ _) (fun _ => ?_)
+      refine SimB.bind (sim_parseId S isAlnum (ix1 + 1) _ _ _) (fun r => ?_)
+      cases r with
+      | none => exact SimB.err _ _
+      | some t =>
+        obtain ⟨a, b, skip⟩ := t
+        simp only [shId, Option.map_some, S.extract]
+        exact sim_groupBody S h ix1 (d + 1) _ _ _
+    -- (?P<name>
+    refine SimB.ite Iff.rfl (fun _ => ?_) (fun _ => ?_)
+    · rw [show ix1 + k + 2 = ix1 + 2 + k by omega, sliceFrom_shift S]
+      refine SimB.bind (sim_sliceFrom _ _ _ _) (fun _ => ?_)
+      refine SimB.bind (sim_parseId S isAlnum (ix1 + 2) _ _ _) (fun r => ?_)
+      cases r with
+      | none => exact SimB.err _ _
+      | some t =>
+        obtain ⟨a, b, skip⟩ := t
+        simp only [shId, Option.map_some, S.extract]
+        exact sim_groupBody S h ix1 (d + 1) _ _ _
+    -- (?P=name)
+    refine SimB.ite Iff.rfl (fun _ => ?_) (fun _ => ?_)
+    · rw [show ix1 + k + 3 = ix1 + 3 + k by omega]
+      exact sim_parseNamedBackref S isAlnum st _ _ _ _ _
+    -- (?>
+    refine SimB.ite Iff.rfl (fun _ => sim_groupBody S h ix1 (d + 1) _ _ _) (fun _ => ?_)
+    -- (?(
+    refine SimB.ite Iff.rfl (fun _ => ?_) (fun _ => ?_)
+    · rw [show ix1 + k + 2 = ix1 + 2 + k by omega]
+      exact h.cond_ st _ _
+    -- (?P>name)
+    refine SimB.ite Iff.rfl (fun _ => ?_) (fun _ => ?_)
+    · rw [show ix1 + k + 3 = ix1 + 3 + k by omega]
+      exact sim_parseNamedBackref S isAlnum st _ _ _ _ _
+    -- (?flags
+    refine SimB.ite Iff.rfl (fun _ => h.flags_ st ix1 _) (fun _ => ?_)
+    exact sim_groupBody S h ix1 (d + 1) _ _ _
+
+theorem sstep_parseFlags (S : Shift re1 re2 k) {f c : Nat} (h : DescSim re1 re2 k isAlnum f c)
+    (st : PState) (ix d : Nat) :
+    Sim k (sh3 k) (parseFlags isAlnum (f + 1) re1 st ix d)
+      (parseFlags isAlnum (f + 1 + c) re2 st (ix + k) d) := by
+  rw [show f + 1 + c = (f + c) + 1 by omega, parseFlags, parseFlags]
+  dsimp only
+  rw [show ix + k + 1 = ix + 1 + k by omega, S.size, show re1.size + k + 2 = re1.size + 2 + k by omega]
+  refine SimB.bind (sim_flagsLoop S (ix + 1) _ _ st.flags (ix + 1) false) (fun r => ?_)
+  obtain ⟨e, fl⟩ := r
+  cases e with
+  | close i => exact SimB.ok3 (by omega)
+  | colon i =>
+    simp only [shFE]
+    rw [show i + k + 1 = i + 1 + k by omega]
+    refine SimB.bind (h.re_ _ (i + 1) d) (fun r => ?_)
+    obtain ⟨ix2, child, st2⟩ := r
+    simp only [sh3]
+    refine SimB.ite (by simp) (fun _ => SimB.err _ _) (fun _ => ?_)
+    rw [byteAt_shift S]
+    refine SimB.bind (sim_byteAt re1 k ix2 _) (fun b => ?_)
+    try dsimp only [id]
+    exact SimB.ite Iff.rfl (fun _ => SimB.err _ _) (fun _ => SimB.ok3 (by omega))
+
+theorem sim_condBranches (k : Nat) (child : Expr) (hasElse : Bool) :
+    Sim k id (condBranches child hasElse) (condBranches child hasElse) := by
+  unfold condBranches
+  split
+  · split
+    · trivial
+    · split <;> rfl
+  · rfl
+
+theorem sstep_parseConditional (S : Shift re1 re2 k) {f c : Nat} (h : DescSim re1 re2 k isAlnum f c)
+    (st : PState) (ix d : Nat) :
+    Sim k (sh3 k) (parseConditional isAlnum (f + 1) re1 st ix d)
+      (parseConditional isAlnum (f + 1 + c) re2 st (ix + k) d) := by
+  rw [show f + 1 + c = (f + c) + 1 by omega, parseConditional, parseConditional]
+  refine SimB.ite (by rw [S.size]; omega) (fun _ => SimB.err _ _) (fun _ => ?_)
+  rw [byteAt_shift S]
+  refine SimB.bind (sim_byteAt re1 k ix _) (fun b => ?_)
+  try dsimp only [id]
+  refine SimB.bind (sh := sh3 k) ?_ (fun r => ?_)
+  · refine SimB.ite Iff.rfl (fun _ => sim_parseNumberedBackref S st ix _) (fun _ => ?_)
+    refine SimB.ite Iff.rfl (fun _ => sim_parseNamedBackref S isAlnum st ix _ _ _ _) (fun _ => ?_)
+    refine SimB.ite Iff.rfl (fun _ => sim_parseNamedBackref S isAlnum st ix _ _ _ _) (fun _ => ?_)
+    exact h.re_ st ix d
+  obtain ⟨next, condition, st1⟩ := r
+  simp only [sh3]
+  refine SimB.bind (sim_checkForCloseParen S _ next) (fun next2 => ?_)
+  try dsimp only
+  refine SimB.bind (h.re_ st1 next2 d) (fun r => ?_)
+  obtain ⟨end_, child, st2⟩ := r
+  simp only [sh3]
+  refine SimB.ite (by simp) (fun _ => ?_) (fun _ => ?_)
+  · cases condition with
+    | backref g =>
+      simp only
+      refine SimB.bind (sim_checkForCloseParen S _ end_) (fun after => ?_)
+      exact SimB.ok3 rfl
+    | _ => exact SimB.err _ _
+  · refine SimB.bind (sh := id) ?_ (fun br => ?_)
+    · exact sim_condBranches k child st2.lastReHadAlt
+    try dsimp only [id]
+    refine SimB.bind (sim_checkForCloseParen S _ end_) (fun after => ?_)
+    exact SimB.ite Iff.rfl (fun _ => SimB.ok3 rfl) (fun _ => SimB.ok3 rfl)
+
+/-- **the parser is shift-invariant** (up to the length-dependent back-reference bound): for every
+    fuel `f` of run 1 and every surplus `c` of run 2 -/
+theorem descSim (S : Shift re1 re2 k) (isAlnum : Char → Bool) (c : Nat) :
+    ∀ f, DescSim re1 re2 k isAlnum f c := by
+  intro f
+  induction f with
+  | zero =>
+    constructor
+    · intro st ix d; rw [parseRe]; trivial
+    · intro st ix d; rw [reAltLoop]; trivial
+    · intro st ix d; rw [parseBranch]; trivial
+    · intro st ix d; rw [branchLoop]; trivial
+    · intro st ix d; rw [parsePiece]; trivial
+    · intro st ix d; rw [parseAtom]; trivial
+    · intro st ix d; rw [parseGroup]; trivial
+    · intro st ix d; rw [parseFlags]; trivial
+    · intro st ix d; rw [parseConditional]; trivial
+  | succ f ih =>
+    exact {
+      re_ := sstep_parseRe S ih
+      alt_ := sstep_reAltLoop S ih
+      branch_ := sstep_parseBranch ih
+      bloop_ := sstep_branchLoop S ih
+      piece_ := sstep_parsePiece S ih
+      atom_ := sstep_parseAtom S ih
+      group_ := sstep_parseGroup S ih
+      flags_ := sstep_parseFlags S ih
+      cond_ := sstep_parseConditional S ih }
+
+/-- what `parse_re` does after its first `parse_branch` -/
+def reRest (isAlnum : Char → Bool) (g : Nat) (re : Bytes) (depth : Nat) (r : Nat × Expr × PState) :
+    Res (Nat × Expr × PState) := do
+  let ix ← optWs re r.2.2.flags r.1
+  sliceFrom re ix "parse_re: self.re[ix..]"
+  if re[ix]? == some (ch '|') then
+    let (ix, rest, st) ← reAltLoop isAlnum g re r.2.2 ix depth
+    .ok (ix, .alt (r.2.1 :: rest), { st with lastReHadAlt := true })
+  else
+    let st := { r.2.2 with lastReHadAlt := false }
+    if st.numericBackrefs && !st.namedGroups.isEmpty then .cerr
+    else .ok (ix, r.2.1, st)
+
+theorem parseRe_eq (isAlnum : Char → Bool) (g : Nat) (re : Bytes) (st : PState) (ix depth : Nat) :
+    parseRe isAlnum (g + 1) re st ix depth =
+      (parseBranch isAlnum g re st ix depth >>= reRest isAlnum g re depth) := by
+  rw [parseRe]; rfl
+
+theorem sim_reRest (S : Shift re1 re2 k) {g g' : Nat} (d : Nat)
+    (halt : ∀ st ix, Sim k (shL k) (reAltLoop isAlnum g re1 st ix d) (reAltLoop isAlnum g' re2 st (ix + k) d))
+    (r : Nat × Expr × PState) :
+    Sim k (sh3 k) (reRest isAlnum g re1 d r) (reRest isAlnum g' re2 d (sh3 k r)) := by
+  obtain ⟨ix1, child, st1⟩ := r
+  unfold reRest
+  simp only [sh3]
+  refine SimB.bind (sim_optWs S _ ix1) (fun ix2 => ?_)
+  try dsimp only
+  rw [sliceFrom_shift S]
+  refine SimB.bind (sim_sliceFrom _ _ _ _) (fun _ => ?_)
+  rw [S.get]
+  refine SimB.ite Iff.rfl (fun _ => ?_) (fun _ => ?_)
+  · refine SimB.bind (halt st1 ix2) (fun r => ?_)
+    obtain ⟨ix3, rest, st3⟩ := r
+    exact SimB.ok3 rfl
+  · try dsimp only
+    exact SimB.ite Iff.rfl (fun _ => rfl) (fun _ => SimB.ok3 rfl)
+
+end descent
+
+/-! ## C14: the builder option against the `(?i)` prefix -/
+
+theorem bytesOf_append (a b : List Char) : (bytesOf (a ++ b)).toList = (bytesOf a).toList ++ (bytesOf b).toList := by
+  simp only [bytesOf, List.map_append, Utf8.encode_append]
+
+theorem shift_flag_prefix (p : List Char) : Shift (bytesOf p) (bytesOf ("(?i)".toList ++ p)) 4 := by
+  have hl : (bytesOf ("(?i)".toList ++ p)).toList = [ch '(', ch '?', ch 'i', ch ')'] ++ (bytesOf p).toList := by
+    rw [bytesOf_append]; rfl
+  refine ⟨⟨_, rfl, hl⟩, ?_⟩
+  have h3 : (bytesOf ("(?i)".toList ++ p))[3]? = some (ch ')') := by
+    have := get_of_split (re := bytesOf ("(?i)".toList ++ p)) (pre := [ch '(', ch '?', ch 'i'])
+      (b := ch ')') (post := (bytesOf p).toList) (by rw [hl]; rfl)
+    simpa using this
+  exact (WF_bytesOf _).step_ascii h3 (by decide)
+
+/-- **C14_parse_flag_partial** — the corrected statement.  For every pattern `P` that does not
+    begin with a `(?#…)` comment (`H0`) nor with something `parse_piece` reads as a quantifier
+    (`H1`: `?`, `*`, `+`, or a `{n,m}` that `parse_repeat` accepts — the counterexample
+    `C14_parse_flag_false_brace`), the parser started with the `i` flag seeded on `P` (what
+    `RegexBuilder::case_insensitive(true)` does) and the parser on `"(?i)" ++ P` do the same thing,
+    four bytes apart (`Sim 4 id`):
+    * if the first returns a tree, the second returns **the same `ExprTree`** (expression,
+      back-reference set, named groups) — not `Concat [Empty, t]`: the loop of `parse_branch` drops
+      the `Empty` piece of the flag group;
+    * if the first reports a parse error at `pos`, the second reports the same error at `pos + 4`
+      — except for the two length-dependent errors `InvalidBackref` / `InvalidGroupNameBackref`
+      (`group < re.len() / 2`; counterexample `C14_parse_flag_false_backref`);
+    * `CompileError::NamedBackrefOnly` in both. -/
+theorem C14_parse_flag_partial (isAlnum : Char → Bool) (p : List Char)
+    (H0 : optWs (bytesOf p) { casei := true } 0 = .ok 0)
+    (H1 : ∀ b, (bytesOf p)[0]? = some b → quantAt (bytesOf p) { casei := true } 0 b = .ok none) :
+    Sim 4 id (parseStr isAlnum p true) (parseStr isAlnum ("(?i)".toList ++ p) false) := by
+  have S := shift_flag_prefix p
+  generalize hre1 : bytesOf p = re1 at *
+  generalize hre2 : bytesOf ("(?i)".toList ++ p) = re2 at *
+  obtain ⟨pre, hk, hl⟩ := S.list
+  have hpre : pre = [ch '(', ch '?', ch 'i', ch ')'] := by
+    have h2 : re2.toList = [ch '(', ch '?', ch 'i', ch ')'] ++ re1.toList := by
+      rw [← hre2, ← hre1, bytesOf_append]; rfl
+    rw [h2] at hl
+    exact (List.append_inj_left hl (by simp [hk])).symm
+  subst hpre
+  have g0 : re2[0]? = some (ch '(') := by rw [← Array.getElem?_toList, hl]; rfl
+  have g1 : re2[1]? = some (ch '?') := by rw [← Array.getElem?_toList, hl]; rfl
+  have g2 : re2[2]? = some (ch 'i') := by rw [← Array.getElem?_toList, hl]; rfl
+  have g3 : re2[3]? = some (ch ')') := by rw [← Array.getElem?_toList, hl]; rfl
+  -- the flag group seeds the state
+  have hw : optWs re2 { casei := true } 4 = .ok 4 := by
+    have := sim_optWs (bad := BadErr) S { casei := true } 0
+    rw [H0] at this
+    simpa [SimB] using this
+  have hq : ∀ b, re2[4]? = some b → quantAt re2 { casei := true } 4 b = .ok none := by
+    intro b hb
+    have hb' : re1[0]? = some b := by rw [← S.get 0]; simpa using hb
+    have := sim_quantAt S { casei := true } 0 b
+    rw [H1 b hb'] at this
+    simpa [SimB, shQ] using this
+  -- fuels
+  obtain ⟨g, hg⟩ : ∃ g, descentFuel re1.size = g + 2 := ⟨descentFuel re1.size - 2, by
+    simp only [descentFuel]; omega⟩
+  have hg2 : descentFuel re2.size = g + 18 := by
+    rw [S.size]; simp only [descentFuel] at hg ⊢; omega
+  have hseed := C14_flag_group_seeds isAlnum (re := re2) (g + 11) g0 g1 g2 g3 hw hq
+  have hbr2 : parseBranch isAlnum (g + 17) re2 {} 0 0 =
+      parseBranch isAlnum (g + 16) re2 { flags := { casei := true } } 4 0 := by
+    rw [parseBranch, parseBranch, hseed]
+  have hsim : Sim 4 (sh3 4) (parseRe isAlnum (g + 2) re1 { flags := { casei := true } } 0 0)
+      (parseRe isAlnum (g + 18) re2 {} 0 0) := by
+    rw [parseRe_eq, parseRe_eq, hbr2]
+    refine SimB.bind ((descSim S isAlnum 15 (g + 1)).branch_ _ 0 0) (fun r => ?_)
+    exact sim_reRest S 0 (fun st ix => (descSim S isAlnum 16 (g + 1)).alt_ st ix 0) r
+  unfold parseStr parseBytes
+  rw [hre1, hre2, hg, hg2]
+  simp only
+  generalize parseRe isAlnum (g + 2) re1 { flags := { casei := true } } 0 0 = x1 at hsim ⊢
+  generalize parseRe isAlnum (g + 18) re2 {} 0 0 = x2 at hsim ⊢
+  cases x1 with
+  | ok r =>
+    obtain ⟨ix, e, st⟩ := r
+    simp only [SimB, sh3] at hsim; subst hsim
+    simp only
+    rw [S.size]
+    by_cases hlt : ix < re1.size
+    · rw [if_pos hlt, if_pos (by omega)]; exact Or.inr rfl
+    · rw [if_neg hlt, if_neg (by omega)]; rfl
+  | err e q =>
+    rcases hsim with h | h
+    · exact Or.inl h
+    · subst h; exact Or.inr rfl
+  | cerr => simp only [SimB] at hsim; subst hsim; rfl
+  | panic s => trivial
+  | outOfFuel => trivial
+
+/-- the first reading of `C14_parse_flag_partial`: same `ExprTree` -/
+theorem C14_parse_flag_ok (isAlnum : Char → Bool) (p : List Char)
+    (H0 : optWs (bytesOf p) { casei := true } 0 = .ok 0)
+    (H1 : ∀ b, (bytesOf p)[0]? = some b → quantAt (bytesOf p) { casei := true } 0 b = .ok none)
+    {t : Tree} (h : parseStr isAlnum p true = .ok t) :
+    parseStr isAlnum ("(?i)".toList ++ p) false = .ok t := by
+  have := C14_parse_flag_partial isAlnum p H0 H1
+  rw [h] at this
+  exact this
+
+/-- the second: same error, four bytes later -/
+theorem C14_parse_flag_err (isAlnum : Char → Bool) (p : List Char)
+    (H0 : optWs (bytesOf p) { casei := true } 0 = .ok 0)
+    (H1 : ∀ b, (bytesOf p)[0]? = some b → quantAt (bytesOf p) { casei := true } 0 b = .ok none)
+    {e : PErr} {pos : Nat} (h : parseStr isAlnum p true = .err e pos) (hb : ¬ BadErr e) :
+    parseStr isAlnum ("(?i)".toList ++ p) false = .err e (pos + 4) := by
+  have := C14_parse_flag_partial isAlnum p H0 H1
+  rw [h] at this
+  rcases this with h' | h'
+  · exact absurd h' hb
+  · exact h'
+
+/-- the converse: if `(?i)P` parses, then `P` with the option parses to the same tree — or stops
+    at one of the two length-dependent back-reference errors -/
+theorem C14_parse_flag_conv (isAlnum : Char → Bool) (hal : AlnumOK isAlnum) (p : List Char)
+    (H0 : optWs (bytesOf p) { casei := true } 0 = .ok 0)
+    (H1 : ∀ b, (bytesOf p)[0]? = some b → quantAt (bytesOf p) { casei := true } 0 b = .ok none)
+    {t : Tree} (h : parseStr isAlnum ("(?i)".toList ++ p) false = .ok t) :
+    parseStr isAlnum p true = .ok t ∨ ∃ e pos, BadErr e ∧ parseStr isAlnum p true = .err e pos := by
+  have hs := C14_parse_flag_partial isAlnum p H0 H1
+  have hnp := C06_parse_no_panic isAlnum hal p true
+  have hnf := C06_parse_total isAlnum hal p true
+  cases h1 : parseStr isAlnum p true with
+  | ok t1 =>
+    rw [h1, h] at hs
+    simp only [SimB, id, Res.ok.injEq] at hs
+    exact Or.inl (by rw [hs])
+  | err e pos =>
+    rw [h1, h] at hs
+    rcases hs with hb | hb
+    · exact Or.inr ⟨e, pos, hb, rfl⟩
+    · cases hb
+  | cerr => rw [h1, h] at hs; cases hs
+  | panic s => exact absurd h1 (hnp s)
+  | outOfFuel => exact absurd h1 hnf
+
+-- the hypotheses hold for `a|B(c)\1`, and the conclusion there
+example : parseStr (fun c => c.isAlphanum) "(?i)a|B(c)\\1".toList false =
+    parseStr (fun c => c.isAlphanum) "a|B(c)\\1".toList true := by
+  have h : parseStr (fun c => c.isAlphanum) "a|B(c)\\1".toList true =
+      .ok ⟨.alt [.literal ['a'] true, .concat [.literal ['B'] true, .group 0 (.literal ['c'] true),
+        .backref 1]], [1], []⟩ := isTree_sound (by decide +kernel)
+  rw [h]
+  refine C14_parse_flag_ok _ "a|B(c)\\1".toList (isOkVal_sound (by decide +kernel)) ?_ h
+  intro b hb
+  have hb' : (bytesOf "a|B(c)\\1".toList)[0]? = some 97 := by decide +kernel
+  rw [hb'] at hb; cases hb
+  simp [quantAt, ch]; rfl
+
 end Fancy.Parse
